@@ -99,32 +99,6 @@ def moments(name, params, kmax, point=None, ks=None):
     return res
 
 
-def truncnormal_repaired(params, ks):
-    """in-memory repair used for attribution: the code's own recursion of TruncNormal.get_moment, but the
-    final `float(...)` evaluates the erf expression with 60 significant digits instead of a double"""
-    import sympy
-    import program.distribution.truncated_normal as tn
-
-    def hp_float(e):
-        return sympy.N(sympy.sympify(e), 60)
-
-    tn.float = hp_float
-    try:
-        d = _factory("TruncNormal", params)
-        out = []
-        for k in ks:
-            try:
-                tn.TruncNormal.get_moment.cache_clear()
-                v = d.get_moment(k)
-                out.append({"k": k, "tag": "q", "val": _value(v, None)[1]})
-            except Exception as e:  # noqa
-                out.append({"k": k, "tag": "error", "err": _err(e, "get_moment")})
-        return out
-    finally:
-        del tn.float
-        tn.TruncNormal.get_moment.cache_clear()
-
-
 def _generic_piece(expr, t):
     """for a Piecewise mgf/cf: the piece that is valid in a punctured neighbourhood of t = 0"""
     import sympy
@@ -258,7 +232,7 @@ def mgf_exists(name, params, ts):
 
 def subs_consistency(name, params, point, ks):
     """get_moment(k) → subs(point) → get_moment(k) on one object, versus a fresh object that was substituted before
-    its first get_moment call, versus the same object after clearing the lru_cache (attribution)."""
+    its first get_moment call (the lru_cache of get_moment must not survive subs)."""
     from symengine.lib.symengine_wrapper import sympify as S
     pt = {S(k): S(v) for k, v in point.items()}
     res = {"name": name, "params": params, "items": []}
@@ -282,10 +256,6 @@ def subs_consistency(name, params, point, ks):
             stale = _value(d1.get_moment(k), None)
             fresh = _value(d2.get_moment(k), None)
             res["items"].append({"k": k, "before": before[i], "after_cached": stale, "fresh": fresh})
-        if hasattr(type(d1).get_moment, "cache_clear"):
-            type(d1).get_moment.cache_clear()
-            for i, k in enumerate(ks):
-                res["items"][i]["after_cache_clear"] = _value(d1.get_moment(k), None)
     except Exception as e:  # noqa
         res["error"] = _err(e, "subs")
     return res
